@@ -196,7 +196,124 @@ def _setmask(np, a, m):
     return a
 
 
+# ------------------------------------------------------------------ aliasing: who sees a later in-place change?
+PRODUCERS = {
+    'neg': lambda np, a, b: -a, 'abs': lambda np, a, b: abs(a), 'np.negative': lambda np, a, b: np.negative(a),
+    'add_scalar': lambda np, a, b: a + 1, 'mul_ab': lambda np, a, b: a * b, 'sub_ab': lambda np, a, b: a - b,
+    'copy': lambda np, a, b: a.copy(), 'ma.array': lambda np, a, b: np.ma.array(a), 'ma.array_copy': lambda np, a, b: np.ma.array(a, copy=True),
+    'ma.asarray': lambda np, a, b: np.ma.asarray(a), 'ma.asarray_f': lambda np, a, b: np.ma.asarray(a, dtype=float),
+    'ma.array_f': lambda np, a, b: np.ma.array(a, dtype=float),
+    'slice': lambda np, a, b: a[:], 'reshape': lambda np, a, b: a.reshape(a.shape), 'ravel': lambda np, a, b: a.ravel(),
+    'astype_f': lambda np, a, b: a.astype(float), 'ma.maximum': lambda np, a, b: np.ma.maximum(a, b), 'clip': lambda np, a, b: np.clip(a, -1, 1),
+    'masked_where': lambda np, a, b: np.ma.masked_where(np.ma.getdata(a) > 1, a), 'masked_where_nocopy': lambda np, a, b: np.ma.masked_where(np.ma.getdata(a) > 1, a, copy=False),
+    'getmaskarray': lambda np, a, b: np.ma.getmaskarray(a), 'getmask': lambda np, a, b: np.ma.getmask(a), 'mask_prop': lambda np, a, b: np.ma.asarray(a).mask,
+    'getdata': lambda np, a, b: np.ma.getdata(a), 'data_prop': lambda np, a, b: np.ma.asarray(a).data, 'filled': lambda np, a, b: np.ma.filled(a, 0),
+    'array_data_mask': lambda np, a, b: np.ma.array(np.ma.getdata(a), mask=np.ma.getmaskarray(a)),
+    'array_data_maskcopy': lambda np, a, b: np.ma.array(np.ma.getdata(a), mask=np.ma.getmaskarray(a).copy()),
+    'masked_array': lambda np, a, b: np.ma.masked_array(a), 'squeeze': lambda np, a, b: np.ma.squeeze(a),
+    'mask_or': lambda np, a, b: np.ma.mask_or(np.ma.getmask(a), np.ma.getmask(b)),
+    'logical_or': lambda np, a, b: np.logical_or(np.ma.getmaskarray(a), np.ma.getmaskarray(b)),
+    'np.asarray': lambda np, a, b: np.asarray(a), 'np.array': lambda np, a, b: np.array(a), 'np.array_nocopy': lambda np, a, b: np.array(a, copy=False),
+    'identity': lambda np, a, b: a,
+}
+
+
+def _mut_setmasked(np, r, a, b): r[0] = np.ma.masked
+def _mut_setval(np, r, a, b): r[0] = 9
+def _mut_setbool(np, r, a, b): r[np.ma.getdata(b) > 0] = 7
+def _mut_maskassign(np, r, a, b): r.mask = np.ma.getmaskarray(b)
+def _mut_iadd(np, r, a, b):
+    r += b
+def _mut_imul_s(np, r, a, b):
+    r *= 2
+def _mut_ior(np, r, a, b):
+    r |= np.ma.getmaskarray(b)
+def _mut_maskarr_set(np, r, a, b): np.ma.getmaskarray(r)[0] = True
+def _mut_data_set(np, r, a, b): np.ma.getdata(r)[0] = 11
+def _mut_clampset(np, r, a, b): r[r > 1] = 1
+def _mut_sort(np, r, a, b): r.sort()
+
+
+MUTATIONS = {'set_masked': _mut_setmasked, 'set_value': _mut_setval, 'set_bool': _mut_setbool, 'mask_assign': _mut_maskassign,
+             'iadd': _mut_iadd, 'imul_scalar': _mut_imul_s, 'ior': _mut_ior, 'maskarray_set': _mut_maskarr_set,
+             'data_set': _mut_data_set, 'clamp_set': _mut_clampset}
+
+
+def alias_main(trials, rng, only):
+    bad = {}
+    n = 0
+    for t in range(trials):
+        shape = rng.choice([(3,), (2,), (2, 2)])
+        size = 1
+        for s_ in shape:
+            size *= s_
+        arrs = []
+        for _ in range(2):
+            kind = rng.choice('ffi')
+            rep = rng.choice(['ma', 'ma', 'ma', 'nomask', 'nd'])
+            vals = [rng.choice([-2, -1, 0, 1, 2, 3]) if kind == 'i' else rng.choice([-2.0, -1.0, -0.5, 0.0, 0.25, 1.0, 1.5, 3.0]) for _ in range(size)]
+            mask = [rng.random() < 0.4 for _ in range(size)]
+            arrs.append((kind, rep, vals, mask))
+        for pn, pf in PRODUCERS.items():
+            for mn, mf in MUTATIONS.items():
+                name = pn + '/' + mn
+                if only and only not in name:
+                    continue
+                ra, sa = mk(*arrs[0], shape)
+                rb, sb = mk(*arrs[1], shape)
+
+                def go(np_, a, b, dump):
+                    r = pf(np_, a, b)
+                    d0 = dump(r)
+                    isb = d0[0] in ('nd', 'ma') and d0[2] == 'b'
+                    if d0[0] not in ('nd', 'ma') or (isb and mn != 'ior') or (not isb and mn == 'ior') \
+                            or (d0[0] == 'nd' and mn in ('set_masked', 'mask_assign', 'maskarray_set')):
+                        return ('n/a',)
+                    try:
+                        mf(np_, r, a, b)
+                        st = 'ok'
+                    except (symx.Outside, symx.Inconclusive):
+                        raise
+                    except Exception as e:
+                        st = type(e).__name__
+                        if 'UFunc' in st:
+                            st = 'UFuncTypeError'
+                    return (st, dump(r), dump(a), dump(b))
+                try:
+                    with rnp.errstate(all='ignore'):
+                        r = go(rnp, ra, rb, dump_real)
+                except Exception as e:
+                    r = ('producer-exc', type(e).__name__)
+                symx.CTX = symx.Ctx([], [])
+                MODEL[0] = None
+                try:
+                    s = go(snp, sa, sb, dump_shim)
+                except (symx.Outside, symx.Inconclusive) as e:
+                    s = None
+                except Exception as e:
+                    s = ('producer-exc', type(e).__name__, str(e)[:80])
+                finally:
+                    symx.CTX = None
+                n += 1
+                if s is None or r[0] != 'ok':
+                    continue        # only histories the real numpy accepts are compared
+                if r[0] == 'producer-exc' or s[0] == 'producer-exc':
+                    ok = r[0] == s[0]
+                else:
+                    ok = r[0] == s[0] and all(same(x, y) for x, y in zip(r[1:], s[1:]))
+                if not ok:
+                    bad.setdefault(name, []).append((arrs, shape, r, s))
+    print('%d alias evaluations, %d cases with mismatches' % (n, len(bad)))
+    for name, lst in sorted(bad.items()):
+        arrs, shape, r, s = lst[0]
+        print('--- %s (%d mismatches)\n   inputs %s shape %s\n   real %s\n   shim %s' % (name, len(lst), arrs, shape, r, s))
+    return 1 if bad else 0
+
+
 def main():
+    if len(sys.argv) > 1 and sys.argv[1] == 'alias':
+        return alias_main(int(sys.argv[2]) if len(sys.argv) > 2 else 40, random.Random(int(sys.argv[3]) if len(sys.argv) > 3 else 1),
+                          sys.argv[4] if len(sys.argv) > 4 else None)
     trials = int(sys.argv[1]) if len(sys.argv) > 1 else 300
     rng = random.Random(int(sys.argv[2]) if len(sys.argv) > 2 else 1)
     only = sys.argv[3] if len(sys.argv) > 3 else None
